@@ -229,6 +229,33 @@ def record_long_text(chunk):
     return out
 
 
+ZONE_TEXTS = ['2020-04-01 00:00:00-2', '2020-01-01T00:00Z', '10:00+01:00', '12:00 UTC', '2020-04-01 00:00:00+00:00', '1 Jan 2020 10:00 GMT', '2020-04-01 EST']
+
+
+def zone_text_events():
+    """text that a date parser reads as a date WITH a time zone (what a date & -2 concatenates to): arithmetic on it gives a value
+    or an error value - the specification leaves open which (date-looking text) - and never an exception (Trace_Local!TotalOp)"""
+    return [{'t': t, 'op': op, 'side': side} for t in ZONE_TEXTS for op in ('+', '-', '*', '/', '^', '<', '=', '&') for side in (0, 1)]
+
+
+def record_zone_text(chunk):
+    L = xl.lib()
+    out = []
+    for e in chunk:
+        ops = [S.ref(1, 1), S.ref(1, 2)] if e['side'] == 0 else [S.ref(1, 2), S.ref(1, 1)]
+        ast = S.bin_(e['op'], ops[0], ops[1])
+        d = {'Sheet1!A1': e['t'], 'Sheet1!A2': 3, 'Sheet1!B5': S.formula(ast)}
+        try:
+            res = xl.to_abs(L.Evaluator(L.ModelCompiler().read_and_parse_dict(d)).evaluate('Sheet1!B5'))
+        except BaseException as ex:      # noqa
+            if isinstance(ex, (KeyboardInterrupt, SystemExit)):
+                raise
+            res = {'t': 'exc', 'cls': type(ex).__name__}
+        out.append({'ast': ast, 'sheet': 'Sheet1', 'names': [], 'res': res, 'addr': 'Sheet1!B5', 'text': S.formula(ast) + f" with A1 = '{e['t']}', A2 = 3",
+                    'cells': [{'sheet': 'Sheet1', 'col': 1, 'row': 1, 'v': xl.to_abs(e['t'])}, {'sheet': 'Sheet1', 'col': 1, 'row': 2, 'v': xl.to_abs(3)}]})
+    return out
+
+
 CODES = ['#NULL!', '#DIV/0!', '#VALUE!', '#REF!', '#NAME?', '#NUM!', '#N/A']
 
 
@@ -348,6 +375,10 @@ def run(run):
     run.notes['long_text_events'] = dict(tv)
     if tv.get('ok', 0) < 3:
         raise xl.MachineryError(f'long-text events: none within the limit was judged ({dict(tv)})')
+    zt = [e for part in pool.pmap(record_zone_text, zone_text_events(), nchunks=8) for e in part]
+    zv = evalrec.validate(run, zt, name='zonetext', kind='zone-text')
+    run.evaluations += len(zt)
+    run.notes['zone_text_events'] = dict(zv)
     events = driver(run.seed, 3000 if run.tier == 'quick' else 40000)
     recorded = [e for part in pool.pmap(record, events) for e in part]
     run.evaluations += len(recorded)
